@@ -80,6 +80,15 @@ func (c *Ctx) genC15() {
 			ds = append(ds, m*p, sec+m*p, -(m * p), 59*sec+999999999-m*p+1)
 		}
 	}
+	// every seconds and minutes count (trailing-zero digits in any field), with and without a fraction
+	for m := int64(0); m < 60; m++ {
+		for sx := int64(0); sx < 60; sx++ {
+			ds = append(ds, m*min+sx*sec, 3*hr+m*min+sx*sec+500000000, -(m*min + sx*sec + 10))
+		}
+	}
+	for h := int64(0); h <= 120; h++ {
+		ds = append(ds, h*hr, h*hr+10*sec)
+	}
 	for _, d := range ds {
 		c.count("dur-class", "boundary")
 		c.durRT(d)
